@@ -17,11 +17,15 @@ import scipy.sparse as sp
 from toqito.perms import (antisymmetric_projection, perfect_matchings, perm_sign, permutation_operator,
                           symmetric_projection, unique_perms)
 
+from ..exact import Pure, case_rng, describe, present_nd
+
 RULE = ("enumerated, not sampled: every permutation of 1..n (n<=6; quick: n<=5 plus seeded random n=6) for perm_sign, every multiset "
         "of <=6 elements over <=4 values (one sorted and one seeded-shuffled listing, two value alphabets) for unique_perms, every n<=10 "
         "for perfect_matchings (int, list and array forms, arange and non-arange labels), every (d,p) in 1..4 x 1..4 (d^p<=256) x partial "
         "on/off for the projectors; non-trivial = perm not the identity / multiset with a repeated value and >=2 distinct values / "
-        "even n>=4 / p>=2 and d>=2; distinct = hash of the case description")
+        "even n>=4 / p>=2 and d>=2; distinct = hash of the case description. The only array-like arguments (the permutation of perm_sign: list or int64 ndarray, "
+        "the object labels of perfect_matchings: list or int64 ndarray, the element list of unique_perms) keep their exact integer dtype; ndarray forms are also handed "
+        "over as strided views; all of them are compared with a deep snapshot after the call")
 ASSUMPTIONS = [
     "LAPACK LU (scipy.linalg.det) is exact on column-selected identity matrices (entries 0/1, one 1 per column); checked on every evaluated input",
     "float64 sums of 0/+-1 and one division by p! are correctly rounded (IEEE 754), so impl == k/p! is an exact comparison",
@@ -72,7 +76,13 @@ def check_perm_sign(ctx, perm, model_ok):
     n = len(perm)
     desc = {"fn": "perm_sign", "perm": list(perm)}
     ctx.case(desc, list(perm) != sorted(perm), f"perm_sign/n={n}")
-    impl = _call(perm_sign, list(perm))
+    # documented forms: list[int] and ndarray (labels stay exact integers; the ndarray form contiguous or a strided view)
+    prng = case_rng("c18/perm_sign", list(perm))
+    arg = list(perm) if prng.integers(2) else present_nd(prng, np.array(perm, dtype=np.int64), allow_dtype=False)
+    guard = Pure(arg)
+    impl = _call(perm_sign, arg)
+    if guard.modified():
+        ctx.violation("perm_sign: caller's arguments were modified", {"function": "perm_sign", "args": desc, "modified": guard.modified(), "presentation": describe(arg)})
     want = inv_sign(perm)
     model = ctx.lean().ask("c18_perm_sign", {"perm": list(perm)}) if model_ok else {"sign": want, "inv_sign": want}
     if model.get("reject") or model["sign"] != model["inv_sign"] or model["inv_sign"] != want:
@@ -155,8 +165,11 @@ def check_matchings(ctx, objs, form, model_ok):
     n = len(objs)
     desc = {"fn": "perfect_matchings", "objects": objs, "form": form}
     ctx.case(desc, n % 2 == 0 and n >= 4, f"perfect_matchings/n={n}/{form}")
-    arg = n if form == "int" else (list(objs) if form == "list" else np.array(objs))
+    arg = n if form == "int" else (list(objs) if form == "list" else present_nd(case_rng("c18/matchings", objs), np.array(objs), allow_dtype=False))
+    guard = Pure(arg)
     impl = _call(perfect_matchings, arg)
+    if guard.modified():
+        ctx.violation("perfect_matchings: caller's arguments were modified", {"function": "perfect_matchings", "args": desc, "modified": guard.modified(), "presentation": describe(arg)})
     if impl[0] != "ok":
         ctx.violation(f"perfect_matchings({arg!r}) raised {impl[1]}", {"function": "perfect_matchings", "args": desc, "impl": impl[1]})
         return
